@@ -6,34 +6,23 @@ Mirror of `alembic/script/revision.py: RevisionMap.add_revision` in the order th
 performs it:
 
 1. `map_[revision.revision] = revision`
-2. `_add_branches([revision], map_)`      -- BEFORE `add_nextrev`: the walk down sees the old children
-3. `_map_branch_labels([revision], map_)`
-4. `_add_depends_on([revision], map_)`
-5. `bases` / `_real_bases`
-6. `add_nextrev` on every down revision (`KeyError` when one is missing)
-7. `_normalize_depends_on([revision], map_)`
+2. `_map_branch_labels([revision], map_)`
+3. `_add_depends_on([revision], map_)`
+4. `bases` / `_real_bases`
+5. `add_nextrev` on every down revision (`KeyError` when one is missing)
+6. `_normalize_depends_on([revision], map_)`
+7. every revision's `branch_labels` is reset to its own labels and `_add_branches` is run over
+   all labelled revisions, on the updated graph (since the fix of F5; before, only
+   `_add_branches([revision])` ran, and it ran before `add_nextrev`)
 8. `_real_heads`, `heads`
 
-The lead's `LMap` computes `nextrev`/`_all_nextrev` from the list of revisions, so "before
-`add_nextrev`" = "evaluated on the old map".
+The lead's `LMap` computes `nextrev`/`_all_nextrev` from the list of revisions.
 -/
 namespace Model.Gen
 open Model.Rev
 
 /-- the keys of the map (revision ids, then branch labels) -/
 def hasKey (m : LMap) (k : String) : Bool := k ∈ m.ids || m.labelKeys.any (·.1 == k)
-
-/-- step 2: who receives the new revision's labels.  `_get_descendant_nodes([revision])`
-    yields only the revision itself (nobody points to it yet); then the `while parent and not
-    parent._is_real_branch_point and not parent.is_merge_point` walk, evaluated on the OLD
-    children sets.  The new revision is never a branch point; it is a merge point when it
-    has more than one down revision. -/
-def labelTargets (m : LMap) (r : Rev) : List Id :=
-  if r.labels = [] then []
-  else
-    match r.down with
-    | [d] => r.id :: walkDownLabels m (m.revs.length + 1) d
-    | _ => [r.id]   -- merge point (the loop body is not entered) or base (`break`): in both cases only its own set
 
 /-- step 3: `_map_branch_labels([revision], map_)`; the map already contains the new id -/
 def addLabelKeys (ids : List Id) (rid : Id) : List String → List (String × Id) → Except Err (List (String × Id))
@@ -42,26 +31,25 @@ def addLabelKeys (ids : List Id) (rid : Id) : List String → List (String × Id
     if l ∈ ids ∨ acc.any (·.1 == l) then .error .revisionError
     else addLabelKeys ids rid ls (acc ++ [(l, rid)])
 
-/-- steps 2 and 4-8 once the guards have passed and the label keys are known -/
+/-- steps 4-9 once the guards have passed and the label keys are known -/
 def addCore (m : LMap) (r : Rev) (labelKeys' : List (String × Id)) : LMap :=
   let ids' := m.ids ++ [r.id]
-  -- 2. `_add_branches` (evaluated on the old children sets)
-  let tgts := labelTargets m r
   -- 4. `_add_depends_on`
   let rd := resolveDeps ids' labelKeys' r.deps
   let new0 : LRev := { id := r.id, down := r.down, rdeps := rd, ndeps := [], origLabels := r.labels,
-                       labels := dedupe r.labels }
-  let oldRevs := m.revs.map (fun x =>
-    if x.id ∈ tgts then { x with labels := dedupe (x.labels ++ r.labels) } else x)
+                       labels := r.labels }
   -- 6. `add_nextrev`: children sets are computed from the list of revisions
-  let m1 : LMap := { m with revs := oldRevs ++ [new0], labelKeys := labelKeys' }
+  let m1 : LMap := { m with revs := m.revs ++ [new0], labelKeys := labelKeys' }
   -- 7. `_normalize_depends_on`
   let new1 : LRev := { new0 with ndeps := normalizeOne m1 new0 }
-  let m2 : LMap := { m1 with revs := oldRevs ++ [new1] }
-  -- 5. bases, 8. heads
+  let m2 : LMap := { m1 with revs := m.revs ++ [new1] }
+  -- 8. every `branch_labels` reset to the revision's own labels, then `_add_branches` over all
+  --    labelled revisions on the updated graph: exactly what the initial load does
+  let m3 := addBranches m2
+  -- 5. bases, 9. heads
   let isRealHead := (m2.allNextrev r.id).isEmpty
   let isHead := (m2.nextrev r.id).isEmpty
-  { m2 with
+  { m3 with
     bases := if r.down.isEmpty then m.bases ++ [r.id] else m.bases
     realBases := if r.down.isEmpty ∧ r.deps.isEmpty then m.realBases ++ [r.id] else m.realBases
     realHeads := if isRealHead then (m.realHeads.filter (fun h => !(h ∈ new1.allDown || h == r.id))) ++ [r.id] else m.realHeads
